@@ -24,7 +24,7 @@ def run_shard(desc, R):
 def replay(case):
     return qcommon.replay(ID, case)
 
-REQUIRED.update({"obs_double_place_one_waiter": 5, "obs_disconnect_while_blocked": 5,
+REQUIRED.update({"tcp_stress_runs": 3, "tcp_rehandouts": 3, "obs_double_place_one_waiter": 5, "obs_disconnect_while_blocked": 5,
                  "obs_disconnect_holding": 5, "obs_choice_points": 5})
 RULE = ("histories over C16's alphabet {add(channel,prio,id), pull(worker,channels), run, finish, kill, tick, "
         "disconnect} with 3 workers, 2 channels, <=4 jobs: every history to the DFS depth (prefix replay, "
